@@ -10,6 +10,64 @@ def parsePair? (s : String) : Option (Float × Float) :=
   | [a, b] => do let a ← parseFloatBits? a; let b ← parseFloatBits? b; pure (a, b)
   | _ => none
 
+/-! loop scenarios: `loopf <eps> <tolEps> | new t0 tf dt | int target it;it;.. | setdt v | settf v | reset` -/
+def parseIter? (s : String) : Option (Loop.Iter Float) :=
+  match s.splitOn ":" with
+  | ["x"] => some { ret := .raise }
+  | ["k"] => some { ret := .interrupt }
+  | "o" :: nd :: dT :: rest => do
+      let nd ← parseFloatBits? nd
+      let dT ← parseFloatBits? dT
+      let mut cb : Option Float := none
+      let mut cr := false
+      for r in rest do
+        if r == "r" then cr := true
+        else if r.startsWith "c" then cb := parseFloatBits? (r.drop 1).toString
+      pure { ret := .ok nd dT, cbDt := cb, cbRaise := cr }
+  | _ => none
+
+def dumpSys (s : Loop.Sys Float) : String :=
+  s!"T {showList showFloatBits s.ts.reverse} D {showFloatBits s.dt} S {s.status} C {s.cap} X {s.crashed}"
+
+def runScenario (eps tolEps : Float) (ops : List String) : String := Id.run do
+  let cfg : Loop.Cfg Float := { eps := eps, tolEps := tolEps, half := 0.5 }
+  let mut sys : Loop.Sys Float := Loop.construct 0.0 1.0 1.0
+  let mut outs : List String := []
+  for op in ops do
+    match (op.splitOn " ").filter (· ≠ "") with
+    | ["new", t0, tf, dt] =>
+      match parseFloatBits? t0, parseFloatBits? tf, parseFloatBits? dt with
+      | some t0, some tf, some dt => sys := Loop.construct t0 tf dt; outs := dumpSys sys :: outs
+      | _, _, _ => outs := "bad-op" :: outs
+    | "int" :: target :: rest =>
+      let its := match rest with
+        | [] => some []
+        | [x] => parseList? parseIter? (x.replace ";" ",")
+        | _ => none
+      match parseFloatBits? target, its with
+      | some target, some its =>
+        let arr := its.toArray
+        let orc : Loop.Oracle Float := fun k _ _ => arr.getD k { ret := .raise }
+        -- one more unit of fuel than recorded calls: the model must leave by its guard, not by fuel
+        let out := Loop.integrate cfg sys target orc (arr.size + 1)
+        sys := out.sys
+        let rq := out.reqs.reverse.map (fun r => s!"{showFloatBits r.h}:{r.final}:{r.cap}")
+        outs := s!"{dumpSys sys} G {out.guardExit} U {(arr.size : Int) - out.iters} R {showList id rq}" :: outs
+      | _, _ => outs := "bad-op" :: outs
+    | ["setdt", v] =>
+      match parseFloatBits? v with
+      | some v => sys := Loop.setDt sys v; outs := dumpSys sys :: outs
+      | none => outs := "bad-op" :: outs
+    | ["settf", v] =>
+      match parseFloatBits? v with
+      | some v => match Loop.setTf cfg sys v with
+        | some s' => sys := s'; outs := dumpSys sys :: outs
+        | none => outs := "value-error" :: outs
+      | none => outs := "bad-op" :: outs
+    | ["reset"] => sys := Loop.reset sys; outs := dumpSys sys :: outs
+    | _ => outs := "bad-op" :: outs
+  return " | ".intercalate outs.reverse
+
 def showList' (l : List Int) : String := "[" ++ showList toString l ++ "]"
 
 instance : Inhabited Rat := ⟨0⟩
@@ -98,6 +156,10 @@ def stepLine (line : String) : String :=
       let r := if kind == "s" then Brent.brentsroot f lo hi tol eps (1.0 / 0.0) else Brent.lane f lo hi tol eps
       s!"{showFloatBits r.root} {r.success} {r.iters} {showList showFloatBits r.trace}"
     | _, _, _, _ => bad
+  | "loopf" :: eps :: tolEps :: "|" :: rest =>
+    match parseFloatBits? eps, parseFloatBits? tolEps with
+    | some eps, some tolEps => runScenario eps tolEps ((" ".intercalate rest).splitOn "|")
+    | _, _ => bad
   | [] => ""
   | _ => bad
 
